@@ -70,6 +70,8 @@ def _num(tok, st):
             body = "00" + body
         elif st["zeros"] == "pad16":
             body = body.rjust(16, "0")
+        elif st["zeros"] in ("pad17", "pad24"):
+            body = body.rjust(int(st["zeros"][3:]), "0")       # more digits than 64 bits have: all of them zeros
         s = _case("0x" + body, st["case"])
         if st["case"] == "mixed":
             s = "0x" + _case(body, "mixed")
@@ -79,6 +81,8 @@ def _num(tok, st):
             s = "00" + s
         elif st["zeros"] == "pad16":
             s = s.rjust(20, "0")
+        elif st["zeros"] in ("pad17", "pad24"):
+            s = s.rjust(int(st["zeros"][3:]) + 4, "0")
     return ("-" if neg else "") + s
 
 
